@@ -251,6 +251,50 @@ def periodic_overlap_contract(en: E.Engine):
   en.ensure('overlap == length of [x0, x1] ∩ [aligned y0, aligned y1]', r == z3.If(up - lo >= 0, up - lo, 0))
 
 
+def periodic_bounds_contract(en: E.Engine):
+  """_periodic_upper_bounds / _periodic_lower_bounds for points reduced to [0, period): cell i is bounded by the midpoints to its
+  cyclic neighbours, each neighbour taken at the representative (shifted by -1, 0 or +1 periods) nearest to the point itself --
+  wherever the 0 / period seam falls inside the array."""
+  from dinosaur import horizontal_interpolation as hi
+  import jax.numpy as jnp
+  from vlib.pyvc.libspec import _reg
+  n, P = en.int('n'), en.real('period')
+  en.assume(z3.And(n >= 2, P > 0))
+  XF = z3.Function('lon.at', z3.IntSort(), z3.RealSort())
+  x = E.SymSeq(n, lambda i: XF(E.to_z3(i)), z3.RealSort(), 'lon')
+  j = z3.Int('j')
+  en.assume(z3.ForAll([j], z3.Implies(z3.And(j >= 0, j < n), z3.And(XF(j) >= 0, XF(j) < P))))        # after `points % period`
+
+  def h_roll(en_, seq, shift):
+    if not arrays._is_seq(seq) or shift not in (1, -1):
+      raise E.Unsupported('roll other than by +-1')
+    m = E.to_z3(seq.length)
+    if shift == -1:
+      return E.SymSeq(seq.length, lambda i: seq.get(z3.If(E.to_z3(i) + 1 < m, E.to_z3(i) + 1, 0)), seq.sort, 'roll(-1)')
+    return E.SymSeq(seq.length, lambda i: seq.get(z3.If(E.to_z3(i) - 1 >= 0, E.to_z3(i) - 1, m - 1)), seq.sort, 'roll(+1)')
+  _reg(en, jnp.roll, h_roll, 'jnp.roll(x, +-1): cyclic shift (A8)')
+  en.cover('requires: n >= 2 points in [0, period)')
+  k1, up = en.invoke(en.load_function(hi._periodic_upper_bounds), x, P)
+  k2, lo = en.invoke(en.load_function(hi._periodic_lower_bounds), x, P)
+  if 'raise' in (k1, k2) or not arrays._is_seq(up) or not arrays._is_seq(lo):
+    en.ensure(f'_periodic_upper_bounds / _periodic_lower_bounds return one bound per point ({up}, {lo})', False)
+    return
+  i = en.int('i')
+  en.assume(z3.And(i >= 0, i < n))
+  nxt = XF(z3.If(i + 1 < n, i + 1, 0))
+  prv = XF(z3.If(i - 1 >= 0, i - 1, n - 1))
+  for nm, b, nb in (('upper', up.get(i), nxt), ('lower', lo.get(i), prv)):
+    d = 2 * b - XF(i) - nb
+    en.ensure(f'{nm} bound of cell i is the midpoint between the point and its cyclic neighbour shifted by -1, 0 or +1 periods', z3.Or(d == 0, d == P, d == -P))
+    en.ensure(f'{nm} bound lies within a quarter period of its point (the neighbour is taken at its representative nearest to the point)',
+              z3.And(2 * (b - XF(i)) <= P / 2, 2 * (XF(i) - b) <= P / 2))
+  # the cells tile the circle: the upper bound of cell i and the lower bound of the next cell coincide modulo the period
+  nx = z3.If(i + 1 < n, i + 1, 0)
+  dd = up.get(i) - lo.get(nx)
+  en.ensure('upper bound of cell i == lower bound of the next cell modulo the period (cells tile the circle) when neighbours are closer than half a period',
+            z3.Implies(z3.And(XF(nx) - XF(i) != P / 2, XF(i) - XF(nx) != P / 2), z3.Or(dd == 0, dd == P, dd == -P)))
+
+
 def latitude_overlap_contract(en: E.Engine):
   """(upper > lower) * (sin(upper) - sin(lower)) >= 0 for upper, lower in [-pi/2, pi/2] (sin increasing there)."""
   from dinosaur import horizontal_interpolation as hi
@@ -357,6 +401,21 @@ def replay_horizontal(w):
   return False, 'real _align_phase_with / _periodic_overlap agree with the specification on the sampled arcs'
 
 
+def replay_periodic_bounds(w):
+  import numpy as np
+  from dinosaur import horizontal_interpolation as hi
+  P = 2 * np.pi
+  for off, n in ((0.0, 6), (-0.4, 6), (2.3, 5), (1.13, 7), (-0.21, 12)):
+    lon = (off + np.linspace(0, P, n, endpoint=False)) % P
+    up = np.asarray(hi._periodic_upper_bounds(lon, P))
+    lo = np.asarray(hi._periodic_lower_bounds(lon, P))
+    w_ = up - lo
+    ok = np.allclose(w_, P / n) and np.all(np.abs(up - lon) <= P / 4 + 1e-12) and np.all(np.abs(lon - lo) <= P / 4 + 1e-12)
+    if not ok:
+      return True, f'longitudes {np.round(lon, 3).tolist()} (offset {off}): upper bounds {np.round(up, 3).tolist()}, lower bounds {np.round(lo, 3).tolist()}, cell widths {np.round(w_, 3).tolist()} (expected {P / n:.3f} each)'
+  return False, 'periodic cell bounds are the neighbour midpoints for the sampled offsets (seam inside the array included)'
+
+
 def clauses():
   rc = lambda c, n=2: (lambda ctx: run_contract(c, min_obligations=n, setup=_setup, timeout_ms=60000, max_paths=2000))
   v = [VI + '_interval_overlap', VI + 'conservative_regrid_weights']
@@ -370,6 +429,8 @@ def clauses():
              replay=replay_horizontal, group='pyvc'),
       Clause('smt:_periodic_overlap == length of the intersection with the phase-aligned arc, >= 0', 'smt', [HI + '_periodic_overlap', HI + '_align_phase_with'],
              rc(periodic_overlap_contract, 4), replay=replay_horizontal, group='pyvc'),
+      Clause('smt:_periodic_upper/lower_bounds: midpoints to the cyclic neighbours at their nearest representative, cells tile the circle (all n, seam anywhere)', 'smt',
+             [HI + '_periodic_upper_bounds', HI + '_periodic_lower_bounds', HI + '_align_phase_with'], rc(periodic_bounds_contract, 6), replay=replay_periodic_bounds, group='pyvc'),
       Clause('smt:_latitude_overlap entries >= 0, positive iff the bands intersect (sin increasing, A9)', 'smt', [HI + '_latitude_overlap'], rc(latitude_overlap_contract, 3), group='pyvc'),
       Clause('canary:_align_phase_with always within period/2 must fail', 'smt', [HI + '_align_phase_with'], rc(canary_contract, 1), canary=True, group='pyvc'),
   ]
